@@ -396,3 +396,15 @@ def scripted_handshake(batches):
       dev.sim.event('dev_got', m[0], m[1], m[3][:24])
 
   return run
+
+
+def closer(sim, stream, delay, out):
+  """A second host thread closing a stream while the first keeps reading other streams (C15)."""
+  core.sim_sleep(delay)
+  try:
+    stream.close(200)
+    out.append('closed')
+  except BaseException as e:  # pylint: disable=broad-except
+    if isinstance(e, (core.SimAbort, core.SimShutdown)):
+      raise
+    out.append(type(e).__name__)
